@@ -103,4 +103,16 @@ Section Markov.
     (forall a b t, In (a, b, t) mg -> a <> b)
     /\ (forall a b t a' b' t', In (a, b, t) mg -> In (a', b', t') mg ->
           (a = a' /\ b = b') \/ (a = b' /\ b = a') -> (a, b, t) = (a', b', t')).
+
+  (** Separation in the skeleton (all edges read as undirected): every repeat-free path from
+      [a] to [w] has an interior vertex in [S]. *)
+  Fixpoint mg_chain (mg : list medge) (p : list A) : Prop :=
+    match p with
+    | [] => True
+    | a :: t => match t with [] => True | b :: _ => mg_adjacent mg a b /\ mg_chain mg t end
+    end.
+
+  Definition mg_sep (mg : list medge) (a w : A) (S : list A) : Prop :=
+    forall p, NoDup p -> mg_chain mg p -> hd_error p = Some a -> last_error p = Some w ->
+      exists l s r, p = l ++ s :: r /\ l <> [] /\ r <> [] /\ In s S.
 End Markov.
